@@ -91,15 +91,17 @@ INTG = ["tie_intg_rk", "tie_intg_expl_euler", "tie_discrete_system"]
 DC = ["tie_dc_dt", "tie_dc_t_root", "tie_dc_Pidot", "tie_dc_sys_args", "tie_dc_quad", "tie_dc_x_next", "tie_dc_cont_lhs"]
 SMP = ["tie_get_DT_control_at", "tie_get_DT_at", "tie_offset_target", "tie_offset_ok", "tie_env_control", "tie_env_inner",
        "tie_env_integrator", "tie_env_root"]
-TIED = {"C01": {"Intg": INTG},
+SHOOT = ["tie_ms_step", "tie_ss_step", "tie_gap_rows"]
+TIED = {"C01": {"Intg": INTG, "Shoot": SHOOT},
         "C04": {"Smp": SMP},
-        "C07": {"Smp": SMP},
+        "C07": {"Smp": SMP, "Shoot": ["tie_ms_step", "tie_ss_step"]},
         "C09": {"Smp": ["tie_env_control", "tie_env_inner", "tie_env_integrator", "tie_env_root"]},
         "C02": {"Dc": DC},
         "C03": {"Intg": INTG + ["tie_builtin"], "Dc": DC},
-        "C05": {"Intg": INTG, "Dc": ["tie_dc_dt", "tie_dc_t_root", "tie_dc_sys_args", "tie_dc_quad"]},
+        "C05": {"Intg": INTG, "Dc": ["tie_dc_dt", "tie_dc_t_root", "tie_dc_sys_args", "tie_dc_quad"], "Shoot": ["tie_ms_step", "tie_ss_step"]},
         "C08": {"Intg": ["tie_intg_rk", "tie_intg_expl_euler"]}}
-TIE_SRC = {"Intg": "rockit/sampling_method.py", "Dc": "rockit/direct_collocation.py", "Smp": "rockit/sampling_method.py"}
+TIE_SRC = {"Intg": "rockit/sampling_method.py", "Dc": "rockit/direct_collocation.py", "Smp": "rockit/sampling_method.py",
+           "Shoot": "rockit/multiple_shooting.py, rockit/single_shooting.py"}
 
 
 def check_ties(pid):
